@@ -195,6 +195,12 @@ def zoo_node_at(root, path):
 
 def run_shard(cfg):
     rec = Rec(cfg)
+    # configuration dimension: every third shard runs with runtime type checking on (all inputs are well typed,
+    # so nothing may change)
+    from pyoak import config as _config
+
+    _config.RUNTIME_TYPE_CHECK = cfg["k"] % 3 == 2
+    rec.extra["runtime_type_check_in_shard_2_mod_3"] = True
     rec.extra['first_use'] = zoo.warm_up(cfg['k'])
     U = zoo.universe(UNIV)
     idx = 0
